@@ -19,7 +19,7 @@ func randScenario(r *rand.Rand) *Scenario {
 		nf := pick([]string{"true", "false"})
 		add(Item{"notary", "", "", nf})
 		if nf == "true" && k != "audit" && r.Intn(4) > 0 {
-			add(Item{"ballots", "", "", pick([]string{"empty", "stale", "fresh", "mixed", "many", "manyfresh", "edge20", "edge21"})})
+			add(Item{"ballots", "", "", pick([]string{"empty", "stale", "fresh", "mixed", "mixedrev", "freshmid", "many", "manyfresh", "edge20", "edge21"})})
 		}
 	}
 	switch k {
